@@ -209,6 +209,8 @@ def _op_struct(repo, p):
             continue
         names.append(mname)
         d = _subst(decl, p.get('tparams'))
+        for rx, rp in p.get('type_rewrite', []):        # e.g. a template-id that IS a C struct already extracted
+            d = re.sub(rx, rp, d)
         d = re.sub(r'\bmutable\s+', '', d)
         lines.append('    %s;' % d)
         mtype = d[:d.rfind(mname)].strip()
@@ -216,7 +218,9 @@ def _op_struct(repo, p):
         tkey = re.sub(r'\b(struct|const|volatile)\b', '', mtype).strip()
         if init is not None:
             init = re.sub(r'\bnullptr\b', 'NULL', _subst(init, p.get('tparams')))
-            if re.match(r'^\{\s*\}$', init):
+            if re.match(r'^\{\s*\}$', init) and tkey in nested:
+                inits.append('    %s(&self->%s);      /* `= {}` of a class type: its default constructor */' % (nested[tkey], mname))
+            elif re.match(r'^\{\s*\}$', init):
                 inits.append('    memset(&self->%s, 0, sizeof(self->%s));' % (mname, mname))
             elif init.startswith('{'):
                 inits.append('    self->%s = (%s)%s;' % (mname, mtype, init))
